@@ -3,12 +3,22 @@
 # needs /tmp/seed/<ID>-out/{patch.diff,demo.py}
 set -u
 id="$1"; shift
-out="/tmp/seed/$id-out"
+out="${SEED_DIR:-/tmp/seed}/$id-out"
 wt="/tmp/scratch/seedwt-$id-$$"
 mkdir -p /tmp/scratch
 git -C /repo worktree add --detach "$wt" HEAD >/dev/null 2>&1 || { echo "worktree failed"; exit 3; }
-cleanup() { git -C /repo worktree remove --force "$wt" >/dev/null 2>&1; rm -rf "/verif/.work/alt-$(basename $wt)"; }
+tag="${SEED_TAG:-seed}"
+cleanup() {
+  # keep the shrunk failing inputs as plain regression inputs of the replay tier
+  alt="/verif/.work/alt-$(basename $wt)/replays/$id"
+  if [ -d "$alt" ]; then mkdir -p "/verif/regress/$id"; for f in "$alt"/*.json; do [ -e "$f" ] && cp "$f" "/verif/regress/$id/$tag-$(basename "$f")"; done; fi
+  git -C /repo worktree remove --force "$wt" >/dev/null 2>&1; rm -rf "/verif/.work/alt-$(basename $wt)"; }
 trap cleanup EXIT
+if [ -n "${SKIP_CONFIRM:-}" ]; then
+  git -C "$wt" apply "$out/patch.diff" || { echo "patch does not apply"; exit 3; }
+  VERIF_REPO="$wt" /venv/bin/python /verif/check.py "$id" "$@" 2>&1 | grep -E "^VIOLATION|key=|violations=|HARNESS" | cut -c1-250 | head -12 | tee /tmp/scratch/check-$id.log
+  exit 0
+fi
 echo "== demo on original tree"
 PYTHONPATH="$wt" timeout 600 /venv/bin/python "$out/demo.py" >/tmp/scratch/demo-orig-$id.log 2>&1; rc0=$?
 echo "   exit $rc0"
